@@ -417,6 +417,22 @@ example : paramToks (emitQ (liftQ 0 qExample)) = ["p0", "p1", "p2", "p3"] := by 
 example : ((prepareQ .live qExample).map (fun q => q.pattern)) =
     some [.node (some "s") [] none, .rel (some "r") ["A", "B"] none, .node none [] none] := by rfl
 
+/-- The query Prepare actually renders is the applied query with its parameters named; naming does not touch
+well-formedness (`validQ_liftQ`), so the round trip holds for the RENDERED query whenever the APPLIED one is well-formed. -/
+theorem prepared_query_roundtrip (q : Query) (n : Nat) (hv : validQ q = true) :
+    (parseQ (emitQ (liftQ n q))).map normQ = some (normQ (liftQ n q)) :=
+  query_roundtrip (liftQ n q) (by rw [validQ_liftQ]; exact hv)
+
+/-! ### the known finding `query.Literal:raw-go-string-emitted-unquoted` as a refuted instance
+`query.Literal("abc")` stores the Go string `abc`, not Cypher source form; formatLiteral writes a string Value verbatim, so an
+identifier-shaped string reaches the text as the identifier token `abc`, which reads back as a variable. -/
+def emitRawGoString (s : String) : List Tok := [.ident s]
+
+theorem raw_go_string_literal_refuted :
+    parseOperand (emitRawGoString "abc") = some (.var "abc") ∧ Operand.var "abc" ≠ .lit (.str "abc") ∧
+    parseOperand (emitLit true (.str "abc")) = some (.lit (.str "abc")) :=
+  ⟨rfl, (by intro h; cases h), rfl⟩
+
 /-! ### the parameter map on its way to the server (drivers/neo4j/query_rewrite.go, applied by neo4jTransaction.Query)
 
 `rewriteParams fix params pats`: `pats` are the parameters used as pattern properties of a MATCH, in order; every other
